@@ -5,7 +5,7 @@ from fractions import Fraction
 
 from common import Check, assert_repo_import, eval_cases, eval_one, canon_tree, coq_list, z
 
-IMPORTS = "Base GenPercent Percent"
+IMPORTS = "Base GenPercent Percent PercentFloat"
 
 
 class FakeReport:
@@ -77,7 +77,7 @@ def judge(profile, o):
 def run(tier, seed, replay=None):
     assert_repo_import()
     chk = Check("C19", tier, seed)
-    model_ok = chk.proof_stage(["Agg/Percent.vo"])
+    model_ok = chk.proof_stage(["Agg/Percent.vo", "Agg/PercentFloat.vo", "Agg/PercentFloatProofs.vo"])
     bound = 16 if tier == "quick" else 60
     profiles = [(a, b, c, d) for a in range(bound + 1) for b in range(bound + 1 - a)
                 for c in range(bound + 1 - a - b) for d in range(bound + 1 - a - b - c)]
@@ -96,6 +96,23 @@ def run(tier, seed, replay=None):
             profiles.append((n * rng.randint(0, 4), n * rng.randint(0, 4), n * rng.randint(0, 4), n * rng.randint(0, 4)))  # exact ratios
         else:
             profiles.append(tuple(rng.randint(0, 10 ** rng.randint(1, 9)) for _ in range(4)))
+    # shares of exactly n.001 % (the value inside ceil() is an integer in exact arithmetic; floating point lands just
+    # beside it) and their neighbours: 100000 * x = total * (1000 * n + 1)
+    import math
+    for n in list(range(0, 100, 7)) + [0, 1, 19, 20, 21, 49, 50, 99]:
+        k = 1000 * n + 1
+        g = math.gcd(100000, k)
+        x0, t0 = k // g, 100000 // g
+        for m in (1, 2, 3, 7, rng.randint(4, 5000)):
+            x, t = x0 * m, t0 * m
+            if x > t or t > 10 ** 9:
+                continue
+            for dx in (-1, 0, 1):
+                if 0 <= x + dx <= t:
+                    profiles.append((t - x - dx, 0, x + dx, 0))
+                    profiles.append((t - x - dx, 0, 0, x + dx))
+                    y = rng.randint(0, t - x - dx)
+                    profiles.append((t - x - dx - y, y, x + dx, 0))
     cases = []
     for p in profiles:
         try:
@@ -114,10 +131,14 @@ def run(tier, seed, replay=None):
             e, v, h, u = o["tuple"]
             impl = [[e, v, h, u], o["text_refactor"], o["md_refactor"],
                     "red" in o["styles"][2], "dark_orange" in o["styles"][1], "green" in o["styles"][0]]
-            expr = (f"let '(e, v, h, u) := quality_profile_percentage {coq_list(z(x) for x in p)} in "
-                    "T [T [L e; L v; L h; L u]; enc_bool (verdict_unm_text u || verdict_htm_text h); "
+            # the implementation's figures must be ADMISSIBLE (Agg/PercentFloat.v: each ceil() of a value within 1e-12 of
+            # the exact one, then the source's own adjustment), and the verdicts are the model's on those figures
+            expr = (f"let '(e, v, h, u) := ({z(e)}, {z(v)}, {z(h)}, {z(u)}) in "
+                    f"T [T [L e; L v; L h; L u; enc_bool (may_show_b {coq_list(z(x) for x in p)} (e, v, h, u))]; "
+                    "enc_bool (verdict_unm_text u || verdict_htm_text h); "
                     "enc_bool (verdict_unm_md u || verdict_htm_md h); enc_bool (summary_red u h); "
                     "enc_bool (summary_orange u h); enc_bool (summary_green u h)]")
+            impl[0] = [e, v, h, u, True]
             cases.append((expr, impl, {"profile": list(p)}))
     chk.samples = [c for _, _, c in cases[100:102] + cases[-2:]]
     if model_ok:
@@ -127,7 +148,7 @@ def run(tier, seed, replay=None):
             chk.broken.append("correspondence evaluation failed: " + err[-400:])
         for i in mism[:5]:
             got = eval_one("C19", IMPORTS, cases[i][0])
-            chk.broken.append(f"correspondence (float code vs exact rational model): differ on {cases[i][2]}: "
+            chk.broken.append(f"correspondence (float code vs the admissible outcomes of the model): differ on {cases[i][2]}: "
                               f"model {got} vs implementation {canon_tree(cases[i][1])}")
     else:
         chk.broken.append("model / proofs do not build; correspondence not run")
